@@ -25,7 +25,17 @@ func NewDirFs(root string) DirFs {
 	return DirFs{rootFd: rootFd}
 }
 
+// nsMu makes List atomic for the namespace operations of this process. A
+// directory is read with several getdents calls, and the kernel does not
+// promise that together they are a snapshot: a name created or deleted
+// between two of them may be seen or missed, so a List could return a set of
+// names the directory never held. List excludes the operations that add or
+// remove names; those only share the lock, they do not wait for each other.
+var nsMu sync.RWMutex
+
 func (fs DirFs) Mkdir(p string) {
+	nsMu.RLock()
+	defer nsMu.RUnlock()
 	err := unix.Mkdirat(fs.rootFd, p, 0755)
 	if err != nil {
 		panic(err)
@@ -33,6 +43,8 @@ func (fs DirFs) Mkdir(p string) {
 }
 
 func (fs DirFs) Create(dir, fname string) (f File, ok bool) {
+	nsMu.RLock()
+	defer nsMu.RUnlock()
 	fd, err := unix.Openat(fs.rootFd, path.Join(dir, fname),
 		unix.O_CREAT|unix.O_EXCL|unix.O_WRONLY, 0644)
 	if err == unix.EEXIST {
@@ -116,6 +128,8 @@ func (fs DirFs) ReadAt(f File, offset uint64, length uint64) []byte {
 }
 
 func (fs DirFs) Delete(dir, fname string) {
+	nsMu.RLock()
+	defer nsMu.RUnlock()
 	err := unix.Unlinkat(fs.rootFd, path.Join(dir, fname), 0)
 	if err != nil {
 		panic(fmt.Errorf("unlink(%s): %s", fname, err))
@@ -158,13 +172,19 @@ func (fs DirFs) AtomicCreate(dir, fname string, data []byte) {
 	if err != nil {
 		panic(err)
 	}
+	// writing and flushing the staging file need not hold up a List; the
+	// rename is what changes the directory
+	nsMu.RLock()
 	err = unix.Renameat(fs.rootFd, tmpFile, fs.rootFd, path.Join(dir, fname))
+	nsMu.RUnlock()
 	if err != nil {
 		panic(err)
 	}
 }
 
 func (fs DirFs) Link(oldDir, oldName, newDir, newName string) bool {
+	nsMu.RLock()
+	defer nsMu.RUnlock()
 	err := unix.Linkat(fs.rootFd, path.Join(oldDir, oldName),
 		fs.rootFd, path.Join(newDir, newName),
 		0)
@@ -172,6 +192,8 @@ func (fs DirFs) Link(oldDir, oldName, newDir, newName string) bool {
 }
 
 func (fs DirFs) List(dir string) []string {
+	nsMu.Lock()
+	defer nsMu.Unlock()
 	d, err := unix.Openat(fs.rootFd, dir, unix.O_DIRECTORY, 0)
 	if err != nil {
 		panic(err)
